@@ -1048,23 +1048,57 @@ class Engine:
             # symbolic sequence: Lambda array over a bound index
             n_t, elem_at = s.seq_view(it, st1)
             k = z3.Int(fresh_name("ck"))
+            from . import values as _V
+            cnt0 = _V._cnt[0]
             st2 = st1.fork()
+            heap_before = dict(st2.heap)
             saved = s.bind_tmp(gen.target, elem_at(k), st2)
             mark = len(st2.pc)
             sub_out = []
             r = s.ev(n.elt, st2, sub_out)
-            if len(r) != 1 or sub_out:
-                raise OutOfSubset("comprehension element forks or raises")
-            st3, v = r[0]
-            extra = st3.pc[mark:]
+            for o_ in sub_out:
+                # an exceptional outcome of the element expression is tolerated only when it is provably infeasible
+                sol = z3.Solver(); sol.set("timeout", 2000)
+                for a_ in s.axioms_for(s.cur):
+                    sol.add(a_)
+                for a_ in o_.st.pc:
+                    sol.add(a_)
+                if str(sol.check()) != "unsat":
+                    raise OutOfSubset("comprehension element may raise %s" % o_.exc)
+            if not r:
+                raise OutOfSubset("comprehension element has no normal outcome")
+            for st_i, _v in r:
+                if any(st_i.heap.get(f_) is not heap_before.get(f_) for f_ in set(st_i.heap) | set(heap_before)):
+                    raise OutOfSubset("comprehension element writes the heap")
+            deltas = [list(st_i.pc[mark:]) for st_i, _v in r]
+            st3 = r[0][0]
             del st3.pc[mark:]
             s.unbind_tmp(saved, st3)
-            terms = flatten(v)
-            ety = type_of(v)
+            if len(r) == 1:
+                v = r[0][1]
+                terms = flatten(v)
+                ety = type_of(v)
+                facts = deltas[0]
+            else:
+                # the element forks (short-circuit operators, conditional expressions): one value per path, merged into
+                # an if-then-else over the path conditions; the paths are exhaustive, so their disjunction may be assumed
+                tys = {repr(type_of(v_)) for _s, v_ in r}
+                if len(tys) == 1 and len(flatten(r[0][1])) == 1:
+                    ety = type_of(r[0][1])
+                    pts = [flatten(v_)[0] for _s, v_ in r]
+                else:
+                    ety = OBJ
+                    pts = [s.to_obj(v_) for _s, v_ in r]
+                t_ = pts[-1]
+                for d_, p_ in reversed(list(zip(deltas[:-1], pts[:-1]))):
+                    t_ = z3.If(z3.And(d_ + [z3.BoolVal(True)]), p_, t_)
+                terms = [t_]
+                facts = [z3.Or([z3.And(d_ + [z3.BoolVal(True)]) for d_ in deltas])]
+            # constants created while evaluating the element stand for per-element values: Skolem functions of the index
+            terms, facts = _skolemize(terms, facts, k, cnt0)
             cols = [z3.Lambda([k], t) for t in terms]
-            # facts created while evaluating the element (ground axioms) are
-            # re-added universally quantified over the index
-            for f in extra:
+            # facts created while evaluating the element are re-added universally quantified over the index
+            for f in facts:
                 st3.assume(z3.ForAll([k], z3.Implies(z3.And(0 <= k, k < n_t), f)))
             res.append((st3, VList(n_t, cols, ety)))
         return res
@@ -1077,6 +1111,13 @@ class Engine:
             ety = s.class_info(it.cls)["seq"]
             items = s.seq_items(st, it.t)
             return s.seq_len(st, it.t), (lambda k: VRef(z3.Select(items, k), ety))
+        if isinstance(it, VObj) and getattr(s.cur, "opaque_iterables", False):
+            # an opaque iterable (numpy array): its elements as an uninterpreted sequence (T-enc: iteration yields
+            # len(o) elements item(o, 0..len-1)); only where the contract asks for it
+            items = z3.Function("py_items_of", PyObj, z3.ArraySort(I, PyObj))(it.t)
+            n_ = len_of(it.t)
+            st.assume(n_ >= 0)
+            return n_, (lambda k: VObj(z3.Select(items, k)))
         raise OutOfSubset("not a sequence: %r" % (it,))
 
     def bind_tmp(s, target, val, st):
@@ -1102,6 +1143,29 @@ class Engine:
 
     def ev_Starred(s, n, st, out):
         raise OutOfSubset("starred expression")
+
+
+def _skolemize(terms, facts, k, cnt0):
+    """replace every constant created after counter value cnt0 (names end in !N) by a fresh function of k"""
+    import re as _re
+    seen, todo, consts = set(), list(terms) + list(facts), {}
+    while todo:
+        e = todo.pop()
+        if e.get_id() in seen:
+            continue
+        seen.add(e.get_id())
+        if z3.is_const(e) and e.decl().kind() == z3.Z3_OP_UNINTERPRETED:
+            m_ = _re.search(r"!(\d+)$", e.decl().name())
+            if m_ and int(m_.group(1)) > cnt0 and not e.eq(k):
+                consts[e.get_id()] = e
+        elif z3.is_quantifier(e):
+            todo.append(e.body())
+        else:
+            todo.extend(e.children())
+    if not consts:
+        return terms, facts
+    subs = [(c_, z3.Function(c_.decl().name() + "@k", z3.IntSort(), c_.sort())(k)) for c_ in consts.values()]
+    return [z3.substitute(t_, *subs) for t_ in terms], [z3.substitute(f_, *subs) for f_ in facts]
 
 
 def _mangle(x):
